@@ -35,7 +35,7 @@ var manifestKinds = []string{
 	"sha.flip", "sha.upper", "sha.truncate", "sha.empty", "sha.of-other", "sha.swap",
 	"path.set", "path.of-other",
 	"compression", "file.phase",
-	"file.dup", "file.drop", "file.swap", "graph.dup", "graph.drop", "graph.rename",
+	"file.dup", "file.drop", "file.swap", "file.from-other-graph", "file.from-other-graph", "graph.dup", "graph.drop", "graph.rename",
 	"format", "id_strategy", "scrub.mode", "metrics.drop", "metrics.fingerprint", "metrics.node_count", "schema.drop-graph", "schema.add-kind",
 	"reencode.compact", "reencode.keycase", "json.trailing", "json.truncate-brace",
 }
@@ -200,6 +200,26 @@ func applyManifestEdit(c ManifestCase, fx *fixture, root string) ([]byte, string
 		}
 		files = append(files[:c.F+1:c.F+1], append([]any{f}, files[c.F+1:]...)...)
 		g["files"] = files
+	case "file.from-other-graph":
+		// the whole entry (path, hash, sizes, count, phase) of a fragment of the NEXT graph takes the place of this one
+		if _, err := file(c.F); err != nil {
+			return nil, "", err
+		}
+		if len(graphs) < 2 {
+			return orig, label, nil // (the oracle skips an unchanged manifest)
+		}
+		ofiles, _ := graphs[(c.G+1)%len(graphs)].(jmap)["files"].([]any)
+		if len(ofiles) == 0 {
+			return orig, label, nil
+		}
+		pick := ofiles[((c.F2%len(ofiles))+len(ofiles))%len(ofiles)]
+		// prefer the entry of the same phase
+		for _, of := range ofiles {
+			if of.(jmap)["phase"] == files[c.F].(jmap)["phase"] {
+				pick = of
+			}
+		}
+		files[c.F] = pick
 	case "file.drop":
 		if _, err := file(c.F); err != nil {
 			return nil, "", err
@@ -340,13 +360,17 @@ func manifestOracle(c ManifestCase) (evid.Info, error) {
 	wrap := func(err error) error {
 		return fmt.Errorf("fixture %s, manifest edit %s (graph %d file %d/%d n=%d s=%q): %w", fx.name, label, c.G, c.F, c.F2, c.N, c.S, err)
 	}
-	if err := runDir(fx, sb, victim, lenient, "", &v); err != nil {
+	exp := lenient
+	if c.Kind == "file.from-other-graph" {
+		exp = selfConsistent
+	}
+	if err := runDir(fx, sb, victim, exp, "", &v); err != nil {
 		return info, wrap(err)
 	}
-	if err := runTar(fx, sb, stream, c.Dest, tarExpect{files: files, original: true}, &v); err != nil {
+	if err := runTar(fx, sb, stream, c.Dest, tarExpect{files: files, original: true, load: exp}, &v); err != nil {
 		return info, wrap(err)
 	}
-	if err := runEnc(fx, sb, archivePath, enc.Bytes(), keys().priv, c.Dest, lenient, "", files, &v); err != nil {
+	if err := runEnc(fx, sb, archivePath, enc.Bytes(), keys().priv, c.Dest, exp, "", files, &v); err != nil {
 		return info, wrap(err)
 	}
 	if v.skip != "" {
